@@ -368,7 +368,11 @@ def _iso8583_to_field(bit, bit_config, message_data, encoding=DEFAULT_ENCODING):
 
     # if ICC field, break into tags
     if field_processor == 'ICC':
-        return_values.update(_icc_to_dict(field_data))
+        try:
+            return_values.update(_icc_to_dict(field_data))
+        except struct.error as ex:
+            raise Iso8583DataError(f'Unable to process DE{bit} ICC data',
+                                   binary_context_data=message_data, original_exception=ex)
 
     return return_values, field_length + length_size
 
